@@ -169,6 +169,12 @@ def nodes_from_node_expression(
     if isinstance(expr, (rdflib.URIRef, rdflib.Literal)):
         return [expr]
     elif isinstance(expr, rdflib.BNode):
+        if recurse_depth > 64:
+            # sh:filterShape/sh:nodes and function arguments nest without another limit: an expression that
+            # refers to itself must not exhaust the Python stack.
+            raise ReportableRuntimeError(
+                "The node expression {} is nested too deeply (does it refer to itself?).".format(expr)
+            )
         unions = set(sg.objects(expr, SH_union))
         intersections = set(sg.objects(expr, SH_intersection))
         if len(unions) and len(intersections):
